@@ -9,4 +9,7 @@ McForms   == {"compact", "json"}
 DevSigAlgs == {"HS256", "RS256", "ES512"}
 DevKmAlgs  == {"dir", "A128KW", "RSA1_5", "ECDH-ES+A128KW"}
 DevEncs    == {"A128CBC-HS256", "A256GCM"}
+\* value classes (payload tails, related wrong keys): the algorithms that take a raw symmetric key, one that does not
+ValSigAlgs == {"HS256", "ES256"}
+ValKmAlgs  == {"dir", "A128KW", "A256GCMKW", "RSA-OAEP"}
 =============================================================================
